@@ -179,7 +179,7 @@ macro_rules! hll_array_any_bytes {
 //@ stubs: alloc::fmt::format -> empty string
 //@ bounds: every byte string of exactly 64 bytes (in the *_truncated instances: of each of the lengths 0, 1, 7, 8, 9, 12, 40, 47, 52) in HLL (array) mode with lg_k = 4 (16 registers) and the target type of the instance (Hll4: up to 4 aux entries or a 4-int updatable aux table; Hll6; Hll8; 3 = invalid type); all other header bytes (flags, cur_min, lgArr), the estimator fields, counts and payload symbolic
 //@ desc: HllSketch::deserialize returns Ok or Err without panic for every array-mode image at lg_k = 4
-hll_array_any_bytes!(c14_hll_array4_any_bytes, 0, false); //@ tier: quick
+hll_array_any_bytes!(c14_hll_array4_any_bytes, 0, false);
 hll_array_any_bytes!(c14_hll_array6_any_bytes, 1, false); //@ tier: quick
 hll_array_any_bytes!(c14_hll_array8_any_bytes, 2, false); //@ tier: quick
 hll_array_any_bytes!(c14_hll_array_invalid_type_any_bytes, 3, false);
